@@ -282,8 +282,7 @@ RELAXED = {
         "('ApplicationSyntax', COUNTER64, integerSubType)"]),
     'SupportSmiV1Keywords.p_sequenceApplicationSyntax': ('sequenceApplicationSyntax', [
         "IPADDRESS", "NETWORKADDRESS", "COUNTER32", "GAUGE32", "UNSIGNED32", "TIMETICKS", "OPAQUE", "COUNTER64"]),
-    # (an INDEX naming the bare number 0 is not an object reference: the falsy value falls through)
-    'SupportIndex.p_Index': ('Index', ["ite(truthy(ObjectName[1][0]), ObjectName[1][0], ObjectName)", "typeSMIv1"]),
+    'SupportIndex.p_Index': ('Index', ["ObjectName[1][0]", "typeSMIv1"]),
     'SupportIndex.p_typeSMIv1': ('typeSMIv1', ["INTEGER", "OCTET + ' ' + STRING", "IPADDRESS", "NETWORKADDRESS"]),
     'CommaInImport.p_importIdentifiers': ('importIdentifiers', [
         "importIdentifiers + [importIdentifier]", "[importIdentifier]", "importIdentifiers"]),
@@ -557,8 +556,7 @@ def build_contracts():
             serves.append('C15')
         if rule in ('MaxAccessPart', 'trapTypeClause', 'VarPart'):
             serves.append('C16')
-        if relaxed is not None:
-            serves.append('C17')
+        serves.append('C17')
         cid = 'parser.' + qn.split('.')[-1] + ('' if relaxed is None else '@' + qn.split('.')[0])
         out.append(Contract(
             id=cid, file=FILE, func=qn, serves=serves,
